@@ -399,7 +399,7 @@ def family_cones():
                               lcons=[('or', ('ge', x, N(1)), ('ge', w, N(1)))], obj=('min', None, {1: 1.0})))
 
 
-def family_pl():
+def family_pl(tier='thorough'):
     """piecewise-linear terms: convex / concave / non-convex, 1..5 breakpoints (the SOS2 and the ZZI
     logarithmic encodings depend on the number of segments), breakpoints on both sides of 0 / all positive /
     all negative / outside the argument's domain, over a continuous, an integer and a zero-crossing continuous
@@ -415,6 +415,8 @@ def family_pl():
         ('steps5', (0.0, 2.0, 0.0, -2.0, 0.0), (-1.0, 0.0, 1.0, 2.0)),
     ]
     VZ = [(-1.5, 1.5, False, 0.5), (-2.0, 2.0, True, 1.0), (0.0, 1.0, True, 1.0)]
+    if tier == 'quick':          # the 5- and 6-segment terms cost seconds per judged conversion (exact LP over 7+ weights)
+        shapes = [sh for sh in shapes if len(sh[1]) <= 4]
     for sn, sl, bp in shapes:
         for an, arg, V in (('y', Y, V3), ('x', X, V3), ('y0', Y, VZ)):
             e = ('pl', sl, bp, arg)
@@ -439,6 +441,6 @@ FAMILIES = {
 def all_models(tier, families=None):
     for fam, fn in FAMILIES.items():
         if families and fam not in families: continue
-        gen = fn(tier) if fam == 'shapes' else fn()
+        gen = fn(tier) if fam in ('shapes', 'pl') else fn()
         for name, m in gen:
             yield fam, name, m
